@@ -4,6 +4,7 @@ CONSTANTS MaxOps = 2
   Targets <- TargetsAll
   NevTargets <- NevAll
   AddWeights <- WeightsAll
+  SeqOnly = FALSE
 VIEW view
 INVARIANT TypeOK
 PROPERTY ScaleExact
@@ -14,6 +15,8 @@ PROPERTY NeventsSet
 PROPERTY AddCellwise
 PROPERTY AddOnlyEqualEdges
 PROPERTY AddPure
+PROPERTY AddIntoFresh
+INVARIANT CacheHonest
 PROPERTY AddNegZero
 PROPERTY AddTolDoc
 PROPERTY RuleAgrees
